@@ -1,5 +1,6 @@
 import CoapVerif.Model.WsReader
 import CoapVerif.Lemmas.Parse
+import CoapVerif.Lemmas.StreamWs
 /- C05, WebSocket part: the vocabulary of the correspondence proof M_ws = S_ws.
 
    * "remaining work" views of the specification: `hsRes` (what S makes of the bytes from a handshake-line
